@@ -1137,6 +1137,16 @@ func (e *Evaluator) GetRootJson() (string, error) {
 	return string(bytes), nil
 }
 
+// run a BEGIN, END, BEGINFILE or ENDFILE rule. there is no current item, so
+// next just ends the rule
+func (e *Evaluator) evalSpecialRule(rule *Rule) error {
+	err := e.evalStatement(rule.Body)
+	if err == errNext {
+		return nil
+	}
+	return err
+}
+
 func EvalExpression(exprSrc string, rootValue interface{}, stdout io.Writer) (*Cell, error) {
 	lex := NewLexer(exprSrc)
 	parser := NewParser(&lex)
@@ -1182,7 +1192,7 @@ func EvalProgram(progSrc string, files []InputFile, rootSelectors []string, stdo
 	// begin rules
 	for _, rule := range ev.beginRules {
 		ev.ruleRoot = NewCell(NewValue(nil))
-		if err := ev.evalStatement(rule.Body); err != nil {
+		if err := ev.evalSpecialRule(rule); err != nil {
 			if err == errExit {
 				return &ev, nil
 			}
@@ -1228,7 +1238,7 @@ func EvalProgram(progSrc string, files []InputFile, rootSelectors []string, stdo
 				// run the begin file rules
 				for _, rule := range ev.beginFileRules {
 					ev.ruleRoot = rootCell
-					if err := ev.evalStatement(rule.Body); err != nil {
+					if err := ev.evalSpecialRule(rule); err != nil {
 						if err == errExit {
 							return &ev, nil
 						}
@@ -1248,7 +1258,7 @@ func EvalProgram(progSrc string, files []InputFile, rootSelectors []string, stdo
 				// run the end file rules
 				for _, rule := range ev.endFileRules {
 					ev.ruleRoot = NewCell(rootVal)
-					if err := ev.evalStatement(rule.Body); err != nil {
+					if err := ev.evalSpecialRule(rule); err != nil {
 						if err == errExit {
 							return &ev, nil
 						}
@@ -1262,7 +1272,7 @@ func EvalProgram(progSrc string, files []InputFile, rootSelectors []string, stdo
 	// end rules
 	for _, rule := range ev.endRules {
 		ev.ruleRoot = NewCell(NewValue(nil))
-		if err := ev.evalStatement(rule.Body); err != nil {
+		if err := ev.evalSpecialRule(rule); err != nil {
 			if err == errExit {
 				return &ev, nil
 			}
